@@ -21,6 +21,7 @@ SPEC = {'level': 'exploration',
             gen('vh_c60', 'up_netbase_dns_lookup', 2000, 40000, rule='upstream lookup target (supplementary)'),
         # coverage-guided libFuzzer campaign on the same target (thorough tier only; fz tree = g++ trace-pc + covshim)
         fuzz('vh_c60', 'c60_subnet', 300, max_len=96),
+        gen('vh_c60', 'c60_subnet_internal_prefix', 0, 0, tiers=(), rule='replay-only: known finding (IPv6 subnet whose network base lies in the internal-address prefix does not round-trip through its string)'),
     ]}
 
 META = {'level_text': 'Generated IPv4/IPv6 subnets in all construction forms (prefix length, netmask address, both string forms, single host) with boundary-biased addresses '
